@@ -13,6 +13,7 @@ variants = [
 [replay]
 template = "replay/c04_tables.cpp"
 inputs = ["p", "o"]
+sources = ["parameters.cpp"]
 @*/
 #include "lower.h"
 int verif_exc;
